@@ -44,7 +44,7 @@ func CheckMnemonic(mnemonic string, lg Language) error {
 	csBig := new(big.Int).And(entBig, big.NewInt(shift-1))
 
 	// get real entropy
-	entBytes := entBig.Quo(entBig, big.NewInt(shift)).Bytes()
+	entBytes := entBig.Quo(entBig, big.NewInt(shift)).FillBytes(make([]byte, wordCount/3*4))
 	// get checksum from real entropy
 	hash := sha256.New()
 	_, _ = hash.Write(entBytes)
